@@ -23,9 +23,18 @@ def main(argv):
 
     mod = importlib.import_module(f"vf.checks.{prop.lower()}")
     R = Recorder(prop, spec)
-    mod.run_shard(spec, R)
+    crashed = None
+    try:
+        mod.run_shard(spec, R)
+    except Exception:  # a monitor/workload bug: keep what was observed, report the crash
+        import traceback
+
+        crashed = traceback.format_exc()[-1500:]
+        print(crashed, file=sys.stderr)
+    res = R.result()
+    res["crashed"] = crashed
     with open(out_path, "w") as f:
-        json.dump(R.result(), f, default=str)
+        json.dump(res, f, default=str)
     return 0
 
 
